@@ -19,7 +19,7 @@ InitialABC == ("a" :> Acc(NoC, Manage)) @@ ("b" :> Acc(NoC, Manage)) @@ ("c" :> 
 InitialABCm == ("a" :> Acc(NoC, Manage)) @@ ("b" :> Acc(NoC, Manage)) @@ ("c" :> Acc(NoC, Manage))
 ArgsPlain == {Acc(NoC, Read), Acc(NoC, Manage)}
 ArgsManage == {Acc(NoC, Manage)}
-ArgsCond == {Acc(NoC, Manage), Acc(0, Read), Acc(1, Read), Acc(0, Write)}
+ArgsCond == {Acc(NoC, Manage), Acc(0, Read), Acc(1, Read)}
 mcvars == <<ops, anc, delivered, rejected, st, phase>>
 
 NumRejected == Cardinality({o \in Ids : ~ops[o].ok})
